@@ -15,6 +15,12 @@ SHOT = shot_shape(winds=ListOf(WINDF, frozen=True, minlen=1))
 TABLE_OK = [('table-strictly-ascending', ASC.format(t='shot_info.ammo.dm.drag_table'))]
 ONLY_THE_CALCULATOR = ['self.*', '*._defined_units']       # the shot, weapon, ammunition, atmosphere, winds: untouched
 
+# C04 / C18: the limits and settings the caller configured stay in force for every later call on this calculator -
+# whether the operation returns or raises (a zeroing run that fails must not leave relaxed limits behind)
+CONFIG_KEPT = ' and '.join(f'self._config.{f} == old(self._config.{f})' for f in tc.Config._fields)
+KEPT = ('the-calculators-configuration-is-the-same-after-the-call', CONFIG_KEPT, 'clause', ('C04', 'C18', 'C10'))
+KEPT_EXC = {'ZeroFindingError': [KEPT], 'RangeError': [KEPT]}
+
 ACC = 'self._config.cZeroFindingAccuracy'
 AIM = '(math.sin(self.look_angle) * (raw(distance) / 12))'
 RNG = '(math.cos(self.look_angle) * (raw(distance) / 12))'
@@ -36,9 +42,11 @@ contract(f'{TC}::TrajectoryCalc.zero_angle', props=('C02', 'C10'),
              ('returns-the-elevation-the-calculator-ended-with', 'raw(result) == self.barrel_elevation'),
              ('a-returned-elevation-was-measured-to-hit-within-the-zero-finding-accuracy',
               f'abs(zero_run_height(raw(result), {RNG}) - {AIM}) <= {ACC}'),
+             KEPT,
          ],
          exc_ensures={'ZeroFindingError': [
-             ('raised-only-when-the-accuracy-was-not-met', 'exc.zero_finding_error > self._config.cZeroFindingAccuracy')]},
+             ('raised-only-when-the-accuracy-was-not-met', 'exc.zero_finding_error > self._config.cZeroFindingAccuracy'),
+             KEPT], 'RangeError': [KEPT]},
          modifies=ONLY_THE_CALCULATOR, reveal=['line_through'], modular=True,
          result_shape=QAng(Unit.Radian, value=Real(lo=-1.6, hi=1.6)).alternatives()[0],
          use={f'{TC}::TrajectoryCalc._integrate': ['returns-the-recorded-rows-at-least-one',
@@ -53,7 +61,7 @@ contract(f'{TC}::TrajectoryCalc.trajectory', props=('C10', 'C03', 'C11'),
                      extra_data=Enum(False, True), time_step=Real(lo=0)),
          requires=TABLE_OK,
          raises={'RangeError': None},
-         ensures=[('returns-rows', 'len(result) >= 1')],
+         ensures=[('returns-rows', 'len(result) >= 1'), KEPT], exc_ensures={'RangeError': [KEPT]},
          modifies=ONLY_THE_CALCULATOR, reveal=['line_through'], modular=True,
          result_shape=None,
          use={f'{TC}::TrajectoryCalc._integrate': ['returns-the-recorded-rows-at-least-one']},
